@@ -21,6 +21,27 @@ func keyScheduleFeatures(p *Prog, fn *ssa.Function, T *types.Named, key *ssa.Par
 		if _, f := loadedField(v); f != nil {
 			return f.Name()
 		}
+		// a value that is stored into exactly one field (inner := h(); hm := &hmac{inner: inner}): that field
+		if refs := v.Referrers(); refs != nil {
+			name := ""
+			for _, u := range *refs {
+				st, ok := u.(*ssa.Store)
+				if !ok || st.Val != v {
+					continue
+				}
+				fa, ok := st.Addr.(*ssa.FieldAddr)
+				if !ok {
+					continue
+				}
+				if f := fieldOfAddr(fa); f != nil {
+					if name != "" && name != f.Name() {
+						return ""
+					}
+					name = f.Name()
+				}
+			}
+			return name
+		}
 		return ""
 	}
 	keyish := func(v ssa.Value) string {
@@ -639,6 +660,64 @@ func checkPools(r *Run, rc *RuleCtx, T *types.Named, resetTo *ssa.Function) {
 			rc.Instance(fnName(fn)+"|size assertion", true, nil)
 			if !okAssert {
 				rc.Violation(fn, fn.Pos(), "size assertion", fmt.Sprintf("%s must assert Size()=%d and BlockSize()=%d of the pooled object", fn.Name(), sp.size, sp.blk))
+			}
+		}
+		// Put is the last use: once the object is back in the pool another goroutine may own it
+		{
+			var putCall ssa.Instruction
+			var obj ssa.Value
+			eachInstr(put, func(b *ssa.BasicBlock, i int, in ssa.Instruction) {
+				if isMethodCall(in, "sync", "Pool", "Put") {
+					putCall = in
+					if mi, ok := callArgs(in)[1].(*ssa.MakeInterface); ok {
+						obj = mi.X
+					} else {
+						obj = callArgs(in)[1]
+					}
+				}
+			})
+			if putCall != nil && obj != nil {
+				rooted := func(v ssa.Value) bool {
+					for i := 0; i < 8 && v != nil; i++ {
+						if v == obj {
+							return true
+						}
+						switch x := v.(type) {
+						case *ssa.FieldAddr:
+							v = x.X
+						case *ssa.IndexAddr:
+							v = x.X
+						case *ssa.UnOp:
+							v = x.X
+						case *ssa.MakeInterface:
+							v = x.X
+						case *ssa.ChangeType:
+							v = x.X
+						case *ssa.Slice:
+							v = x.X
+						default:
+							return false
+						}
+					}
+					return false
+				}
+				nAfter := 0
+				eachInstr(put, func(b *ssa.BasicBlock, i int, in ssa.Instruction) {
+					if in == putCall || !reachableFrom(putCall, in) {
+						return
+					}
+					if _, isDbg := in.(*ssa.DebugRef); isDbg {
+						return
+					}
+					nAfter++
+					for _, op := range in.Operands(nil) {
+						if *op != nil && rooted(*op) {
+							rc.Violation(put, instrPos(in), sp.put+" uses the object after Pool.Put", "once the object is back in the pool another goroutine can take, re-key and use it: touching it afterwards ("+shortInstr(in)+") corrupts that goroutine's HMAC")
+							return
+						}
+					}
+				})
+				rc.Instance(fnName(put)+"|Put is the last use", true, map[string]int{"instructions_after_put": nAfter})
 			}
 		}
 		// Acquire re-keys with its key parameter before returning
